@@ -1,7 +1,7 @@
 Require Extraction.
 Require Import ExtrOcamlBasic.
 From Coq Require Import ZArith NArith List.
-From VB Require Import Store.SaveLoadDefs Store.FinalizeDefs.
+From VB Require Import Store.SaveLoadDefs Store.FinalizeDefs Store.StackDefs.
 Extraction "Store_model.ml" Nat.pred N.succ Z.succ
-  finalizeBlocks finalizeBlockImpl outdated descends cmp_shortcut setTip flookup
+  finalizeBlocks finalizeBlockImpl sp_finalize stack_finalize outdated descends cmp_shortcut setTip flookup
   run step save load init storage0 prims_fixed prims_v0 dirty_ids status_word full_dump lookup.
